@@ -78,3 +78,17 @@ Theorem C02_njs_module_never_fails_on_wellformed_matches :
   k <> EmptyString -> find (fun e => seqb (fst e) k) tbl = Some (k', m0 :: ms) -> forallb wf_match (m0 :: ms) = true ->
   njs_redirect tbl (Some k) q <> NjsStatus 500%Z.
 Proof. exact njs_module_never_500_on_wellformed. Qed.
+
+(* ---- URLRewrite / RequestRedirect with ReplacePrefixMatch (model of createMainRewriteForFilters, C02/Rewrite.v; the text it writes and
+   what a regular-expression engine makes of it are compared with the real function on every run). For EVERY prefix P, replacement R and
+   request path that reaches the locations of the rule, the rewrite directive turns the path into what Gateway API prescribes: the
+   matched prefix (a trailing slash of P or R does not count) replaced by R, the rest kept, never empty; [expected] reproduces the eleven
+   rows of the table in the Gateway API reference (RewriteProofs.gateway_api_table). *)
+From NGF Require Import C02.Rewrite C02.RewriteProofs.
+
+Theorem C02_prefix_rewrite_is_what_gateway_api_prescribes :
+  forall P R q, reaches P q -> apply (main_rewrite P R) q = Some (expected P R q).
+Proof. exact rewrite_is_prefix_replacement. Qed.
+
+Theorem C02_rewritten_path_is_never_empty : forall P R q, expected P R q <> [].
+Proof. exact result_not_empty. Qed.
